@@ -76,9 +76,13 @@ def build_menu(mk):
 NMENU = 51
 
 
-def make_history(ctx, start, first, length):
+def make_history(ctx, start, first, length, big=0):
     from qubovert.sim import AnnealResults, AnnealResult
-    pool = [ctx.real_var('v%d' % i) for i in range(2 + 2 * length)]
+    if big:
+        # values 10^10 + k with k a small solver integer: relative gaps of 1e-10 (a tolerance-based comparison would call them ties)
+        pool = [ctx.int_var('v%d' % i, 0, 2) + big for i in range(2 + 2 * length)]
+    else:
+        pool = [ctx.real_var('v%d' % i) for i in range(2 + 2 * length)]
     sel = [ctx.int_var('s%d' % i, 0, NMENU - 1) for i in range(1, length)]
 
     def run():
@@ -199,6 +203,12 @@ def make_history(ctx, start, first, length):
 def jobs(tier, seed):
     J = []
     length = 2 if tier == 'quick' else 3
+    names = [m[0] for m in build_menu(None)]
+    bigfirst = [names.index(n) for n in ('append(new)', 'add_state(new)', 'insert(0,new)', 'extend([new])', '+= [new]', 'extend(AnnealResults([new,new2]))', 'extend(generator of new,new2)')]
+    for start in (0, 1):
+        for first in bigfirst:
+            J.append(dict(name='big/start=%d/first=%02d/len=%d' % (start, first, 2), sig='history', module='vq.props.c13', make='make_history',
+                          args=dict(start=start, first=first, length=2, big=10 ** 10), budget_s=200 if tier == 'quick' else 1800, max_cex=60))
     for start in (0, 1, 2):
         for first in range(NMENU):
             J.append(dict(name='start=%d/first=%02d/len=%d' % (start, first, length), sig='history', module='vq.props.c13', make='make_history',
